@@ -62,8 +62,13 @@ def f_nested_try(xs, k):
     return total
 
 
+def f_comp(xs, k):
+    ys = [half(x + x) * k for x in xs if x != 4]
+    return ys + [k]
+
+
 R = X.Rules2X(
-    expr=[("half($y)", "halfE {y}", "bind"), ("[]", "([] : List Int)")],
+    expr=[("half($y)", "halfE {y}", "bind"), ("[]", "([] : List Int)"), ("$ys + [$k]", "({ys} ++ [{k}])")],
     stmt=[("$l.append($v)", "l", "({l} ++ [{v}])")],
     monad={}, raise_by={"ValueError": ".error Err.value", "AttributeError": ".error Err.attr"}, raise_=None,
     catch={"AttributeError": "(· == Err.attr)"}, retx=".ok ({e})")
@@ -74,6 +79,7 @@ CASES = [
     (f_reduce, "(xs : List Int) (k : Int) : Except Err Int"),
     (f_and, "(xs : List Int) (k : Int) : Except Err Bool"),
     (f_nested_try, "(xs : List Int) (k : Int) : Except Err Int"),
+    (f_comp, "(xs : List Int) (k : Int) : Except Err (List Int)"),
 ]
 LISTS = [[], [1], [2, 4], [3, 1, 4, 1, 5], [6, 2, 9, 0, 7]]
 KS = [0, 1, 2, 4, 9]
